@@ -53,8 +53,12 @@ RULES = {
     "numpy routine that changes the number of dimensions for some inputs (ascontiguousarray / asfortranarray / atleast_nd turn a "
     "0-d array into shape (1,); squeeze, ravel, flatten, expand_dims) unless a reshape to the declared shape is the last step - "
     "a scalar tensor would report shape () and hand out an array of shape (1,)",
+    "R15": "every array that a Tensor stores has been given its ml_dtypes view: in Tensor.__init__ the statement that turns a numpy "
+    "scalar (or another array-like) into an array (`value = np.array(value)` / `np.asarray`) comes before the statement that applies "
+    "`_maybe_view_np_array_with_ml_dtypes` - as an alternative arm of it (`elif isinstance(value, np.generic)`) or after it, the "
+    "0-d array keeps its carrier type (uint16 / uint8 / int8) and numpy() returns bit patterns instead of bfloat16 / float8 / int4 values",
 }
-FLOORS = {"R1": 120, "R2": 4, "R3": 8, "R4": 1, "R5": 6, "R6": 20, "R7": 30, "R8": 4, "R9": 2, "R10": 1, "R11": 1, "R12": 3, "R13": 1, "R14": 8}
+FLOORS = {"R1": 120, "R2": 4, "R3": 8, "R4": 1, "R5": 6, "R6": 20, "R7": 30, "R8": 4, "R9": 2, "R10": 1, "R11": 1, "R12": 3, "R13": 1, "R14": 8, "R15": 1}
 EXPLANATION = (
     "Evaluates the enum and table literals of _enums/_core/tensor_adapters with ast only and compares them with "
     "each other; derives the sub-byte classes from _BITWIDTH_MAP and checks every storage guard, packing-helper "
@@ -1051,7 +1055,38 @@ def rule_r14(ctx):
     ctx.require(n >= 8, f"only {n} return statements of numpy() / __array__ found in tensor classes")
 
 
+def rule_r15(ctx):
+    f = ctx.repo.func("onnx_ir._core:Tensor.__init__")
+    body = f.node.body
+
+    def top_index(n):
+        while n is not None and getattr(n, "_parent", None) is not f.node:
+            n = getattr(n, "_parent", None)
+        return next((i for i, st in enumerate(body) if st is n), -1)
+
+    views = [c for c in calls_in(f) if (dotted_of(c.func) or "").endswith("_maybe_view_np_array_with_ml_dtypes")]
+    ctx.require(bool(views), "Tensor.__init__: the ml_dtypes view is not applied")
+    convs = [n for n in own_nodes(f.node) if isinstance(n, ast.Assign) and isinstance(n.value, ast.Call)
+             and (dotted_of(n.value.func) or "") in ("np.array", "np.asarray", "numpy.array", "numpy.asarray", "np.ascontiguousarray")]
+    stores = [n for n in own_nodes(f.node) if isinstance(n, ast.Assign) and any(isinstance(t, ast.Attribute) and t.attr == "_raw" and norm(t.value) == f.params[0] for t in n.targets)]
+    ctx.require(bool(stores), "Tensor.__init__: store of the payload (_raw) not found")
+    iv = min(top_index(v) for v in views)
+    n = 0
+    for c in convs:
+        n += 1
+        ok = 0 <= top_index(c) < iv
+        ctx.check("R15", f"Tensor.__init__: `{norm(c)[:50]}` precedes the ml_dtypes view", ok, f, c,
+                  f"`{norm(c)[:60]}` makes an array of a numpy scalar in an arm of (or after) the statement that applies the ml_dtypes view, so that array is stored without the view: "
+                  "for bfloat16 / float8 / 4-bit / 2-bit types numpy() returns the carrier's bit patterns (16320 instead of 1.5) although dtype, shape and bytes are right",
+                  how="top-level statement order in Tensor.__init__: array conversions come before the statement containing _maybe_view_np_array_with_ml_dtypes",
+                  construct="array conversion not followed by the ml_dtypes view")
+    ctx.ob("R15", f"{n} array conversion(s) in Tensor.__init__ precede the ml_dtypes view; the payload store follows it", top_index(stores[0]) > iv, nontrivial=False,
+           how="statement order")
+    ctx.require(top_index(stores[0]) > iv, "Tensor.__init__: the payload is stored before the ml_dtypes view is applied")
+
+
 def run(ctx):
+    rule_r15(ctx)
     rule_r14(ctx)
     rule_r13(ctx)
     rule_r12(ctx)
